@@ -525,6 +525,13 @@ inductive PartOutcome where
       follower closed its send side, or a reset — after the field list and k rows, WITHOUT the
       end-of-results message: "Unable to receive result", not retriable once something arrived -/
   | eofAfter (k : Nat)
+  /-- a remote handler whose follower's query FAILED after its field list and k rows (deadline
+      on the follower, ErrOutOfMemory, a per-row panic turned into an error by queryForRemote):
+      rpc/rpc_client.go ProcessRemoteQuery puts the error text ON the final message —
+      `&RemoteQueryResult{Stats: stats, EndOfResults: true, Error: queryErr.Error()}` — so the
+      end-of-results message IS received, but it is not a clean one: HandleRemoteQueries must
+      read `Error` before it leaves the loop on `EndOfResults`, and returns that error -/
+  | endErrorAfter (k : Nat)
 deriving Repr, DecidableEq
 
 structure Part where
@@ -544,6 +551,7 @@ def Part.script (pt : Part) : List Row :=
   | .silentAfter k => pt.rows.take k
   | .retryAfter k => pt.rows.take k ++ pt.rows
   | .eofAfter k => pt.rows.take k
+  | .endErrorAfter k => pt.rows.take k
 
 /-- `some e` = the final result `&remoteResult{err: e}`; `none` = never sent -/
 def Part.finalErr (pt : Part) : Option (Option Err) :=
@@ -554,6 +562,7 @@ def Part.finalErr (pt : Part) : Option (Option Err) :=
   | .silentAfter _ => none
   | .retryAfter _ => some none
   | .eofAfter _ => some (some .handler)
+  | .endErrorAfter _ => some (some .handler)
 
 /-- One handler taken from a partition's queue by the partition goroutine of queryCluster. -/
 inductive Attempt where
